@@ -2,6 +2,7 @@ import CV.Drv.Util
 import CV.Model.Md5
 import CV.Model.AuthSpec
 import CV.Model.AuthLeaves
+import CV.Model.AuthTable
 /-
 Line protocol of the C20 authentication model (`cvdriver auth`).  All strings are hex of
 their UTF-8 text, `-` = empty, `~` = None / not applicable, `!` = the leaf raised.
@@ -30,6 +31,13 @@ The leaves inside the model (CV/Model/AuthLeaves.lean), each compared with the r
   basichdr <user> <pass>     -> str              the Basic client's header
   clienthdr <user> <realm> <nonce> <uri> <~|0|1> <~|nc,cnonce> <password> <method> -> str | notok
                                                  the RFC 2617 Digest client's header
+Every shape of user table, per call (CV/Model/AuthTable.lean).  <ans> = what the table yields during one call:
+  dict <user,pw>* | byname <~|!> <user,pw|user,~|user,!>* (first token: answer for unlisted names) | nondict | raises
+  seqt <leaf|conc> <method> <hdr|~> <b64> <kv> <login0: unset|no|hex> ( / <check|basic|digest> <enc> <realm> <ans> )*
+        -> one `<check=<out>|front=<front>>:<unset|no|user=hex>` per call: `runCalls` on ONE request; the table of every
+           call is `callAny` of the listed answers, so call i sees the i-th answer
+  spect <leaf|conc> <enc> <realm> <method> <hdr|~> <b64> <kv> <granted 0|1> <login|~> <ans>
+        -> ok | fail bypass | fail valid-credentials-refused     (`soundOnA` / `completeOnA` on an observed call)
 -/
 namespace CV.Drv.C20
 open CV.Drv CV.Auth
@@ -105,6 +113,94 @@ def alg? : String → Option (Option Bool)
 
 def qop? (t : String) : Option (Option (Str × Str)) :=
   if t == "~" then some none else (pair? t).map some
+
+def nameAns? (t : String) : Option (Str × NameAns) :=
+  match t.splitOn "," with
+  | [a, b] => do
+    let a ← str? a
+    if b == "~" then pure (a, .absent)
+    else if b == "!" then pure (a, .raises)
+    else do
+      let b ← str? b
+      pure (a, .pw b)
+  | _ => none
+
+def ans? : List String → Option Ans
+  | "dict" :: users => (users.mapM pair?).map Ans.dict
+  | "byname" :: dflt :: entries =>
+    match (if dflt == "~" then some NameAns.absent else if dflt == "!" then some NameAns.raises else none),
+          entries.mapM nameAns? with
+    | some d, some es => some (.byName fun u => (es.lookup u).getD d)
+    | _, _ => none
+  | ["nondict"] => some .nonDict
+  | ["raises"] => some .raises
+  | _ => none
+
+def front? : String → Option FrontEnd
+  | "check" => some .check
+  | "basic" => some .basic
+  | "digest" => some .digest
+  | _ => none
+
+def login? (t : String) : Option Login :=
+  if t == "unset" then some .unset else if t == "no" then some .no else (str? t).map Login.user
+
+def showLogin : Login → String
+  | .unset => "unset"
+  | .no => "no"
+  | .user u => s!"user={showStr u}"
+
+def showObs : CallObs → String
+  | .check o => s!"check={showOut o}"
+  | .front f => s!"front={showFront f}"
+
+/-- split a token list at the "/" tokens -/
+def splitSlash : List String → List (List String)
+  | [] => [[]]
+  | t :: ts =>
+    match splitSlash ts with
+    | [] => [[t]]
+    | g :: gs => if t == "/" then [] :: g :: gs else (t :: g) :: gs
+
+def call? : List String → Option (FrontEnd × Enc × Str × Ans)
+  | f :: e :: r :: a => do
+    let f ← front? f
+    let e ← enc? e
+    let r ← str? r
+    let a ← ans? a
+    pure (f, e, r, a)
+  | _ => none
+
+def leavesSel? (t : String) (b : Option Bytes) (k : Option KV) : Option Leaves :=
+  if t == "leaf" then some (leaves b k) else if t == "conc" then some concreteLeaves else none
+
+def tableStep : List String → Option String
+  | "seqt" :: sel :: method :: hdr :: b :: k :: lg :: rest =>
+    match str? method, optStr? hdr, b64? b, kv? k, login? lg with
+    | some method, some hdr, some b, some k, some lg =>
+      match leavesSel? sel b k, ((splitSlash rest).drop 1).mapM call? with
+      | some L, some cs =>
+        if (splitSlash rest).head? != some [] then some "bad-op"
+        else
+          let answers := cs.map (fun c => c.2.2.2)
+          let tbl : Table := .callAny fun i => (answers[i]?).getD .raises
+          let calls : List Call := cs.map fun c => ⟨c.1, c.2.1, c.2.2.1, tbl⟩
+          let out := runCalls Policy.current L method hdr lg 0 calls
+          some (" ".intercalate (out.map fun o => s!"{showObs o.1}:{showLogin o.2}"))
+      | _, _ => some "bad-op"
+    | _, _, _, _, _ => some "bad-op"
+  | "spect" :: sel :: enc :: realm :: method :: hdr :: b :: k :: granted :: login :: a =>
+    match enc? enc, str? realm, str? method, optStr? hdr, b64? b, kv? k, optStr? login, ans? a with
+    | some enc, some realm, some method, some hdr, some b, some k, some login, some a =>
+      match leavesSel? sel b k with
+      | some L =>
+        if granted != "0" && granted != "1" then some "bad-op"
+        else if !(soundOnA L enc realm method a hdr (granted == "1")) then some "fail bypass"
+        else if !(completeOnA L enc realm method a hdr login) then some "fail valid-credentials-refused"
+        else some "ok"
+      | none => some "bad-op"
+    | _, _, _, _, _, _, _, _ => some "bad-op"
+  | _ => none
 
 def authStep (s : Unit) : List String → Unit × String
   | "auth" :: pol :: enc :: realm :: method :: hdr :: b :: k :: users =>
@@ -208,7 +304,10 @@ def authStep (s : Unit) : List String → Unit × String
       let c : Client := ⟨u, realm, nonce, uri, alg, qop⟩
       if c.ok then (s, showStr (c.header md5Hex pw method)) else (s, "notok")
     | _, _, _, _, _, _, _, _ => (s, "bad-op")
-  | _ => (s, "bad-op")
+  | ts =>
+    match tableStep ts with
+    | some a => (s, a)
+    | none => (s, "bad-op")
 
 def authMachine : Machine := ⟨Unit, (), authStep⟩
 
